@@ -158,12 +158,13 @@ Theorem traceql_portion_loop_same_text :
 Proof. intros q c ps. unfold tq_portion_loop. apply tq_run_is_fresh. Qed.
 Print Assumptions traceql_portion_loop_same_text.
 
-(* Profile selectors (C17's model ProfSel.prof_selector): StreamSelectorPlanner.Process writes no field of the
+(* Profile selectors (C17's model ProfSel.prof_selector_abs; re_full = the oracle "the anchored pattern matches the empty
+   string" that Process asks since the absent-label fix): StreamSelectorPlanner.Process writes no field of the
    planner; the statements of successive executions of one object are those of the pure function, window by
    window. The content is the tie: checks/c14.py compares this with k executions of ONE real planner object. *)
 Theorem prof_reexecution_same_text :
-  forall table cluster sels ws,
-    prof_run table cluster sels ws = map (fun w => render (prof_selector table (fst w) (snd w) sels) cluster) ws.
+  forall re_full table cluster sels ws,
+    prof_run re_full table cluster sels ws = map (fun w => render (prof_selector_abs re_full table (fst w) (snd w) sels) cluster) ws.
 Proof. exact prof_run_is_fresh. Qed.
 Print Assumptions prof_reexecution_same_text.
 
@@ -310,7 +311,7 @@ Example prof_plan_renders :
   match pprocess (plan_mode PMMergeTraces [{| sl_name := "a"; sl_op := MEq; sl_val := "b" |}])
                  {| pr_from_ns := 1700000000000000000; pr_to_ns := 1700000300000000000; pr_limit := 0; pt_series_gin := "profiles_series_gin";
                     pt_series_gin_dist := "profiles_series_gin"; pt_series := "profiles_series"; pt_series_dist := "profiles_series";
-                    pt_profiles_dist := "profiles" |} with
+                    pt_profiles_dist := "profiles"; pr_empty := [] |} with
   | Some r => prender r <> None
   | None => False
   end.
